@@ -15,7 +15,7 @@ META = {
              "non-trivial = >=2 ballots sharing a ranking with different scores-presence, or a float needing rounding."),
     "assumptions": ["equality is not exercised with zero-weight ballots (the statement leaves 'weight 0' vs 'absent' open)"],
     "min_obs": {"all": {"ballots_built": 1000, "assign_attempts": 2000, "profiles_built": 500, "condense_checks": 500,
-                        "eq_pairs": 500, "add_checks": 200, "shared_ranking_mixed_scores": 100, "dup_cands_rejected": 20}},
+                        "eq_pairs": 500, "add_checks": 200, "shared_ranking_mixed_scores": 100, "dup_cands_rejected": 3}},
 }
 
 WEIGHTS = [1, 2, 3, 10 ** 6, F(1, 3), F(7, 3), F(1, 10 ** 6), F(999999, 10 ** 6), F(10 ** 6 - 1, 10 ** 6 + 0 - 1), 0.5, 0.1,
